@@ -125,6 +125,11 @@ class Defs:
             for cid, lab in self.cfg.control_conditions(nid):
                 cn = self.cfg.nodes[cid]
                 if cn.kind == "cond":
+                    # an error guard (`if bad: raise`): the other outcome of the test never returns normally - it does not
+                    # select between definitions, it only rejects inputs
+                    other = [dst for dst, l2 in self.cfg.succ[cid] if l2 is (not lab)]
+                    if other and all(self.cfg.exit.id not in self.cfg.reachable(o) for o in other):
+                        continue
                     out.append((next(t for t, i in self.tests if i == cid), lab))
             self._dom[nid] = out
         return self._dom[nid]
